@@ -38,7 +38,7 @@ func init() {
 			"against explicitly built sets of truncated bit strings. Non-trivial+distinct = hash of (a,b) pairs with a != b; hash of (keys, s, e, m).",
 		Assumptions: []string{"non-empty key lists; CountPrefixes only on strictly ascending keys, e-s >= 2, m >= 1"},
 		Flavours:    releaseAnd386,
-		Required: []string{"fd/equal", "fd/byte-prefix", "fd/nul-padding-twin", "fd/diff-in-chunk-0", "fd/diff-in-chunk-1", "fd/diff-in-chunk-2", "fd/diff-at-chunk-boundary", "fd/empty-key", "fd/single-key-list",
+		Required: []string{"arguments-in-read-only-memory", "fd/equal", "fd/byte-prefix", "fd/nul-padding-twin", "fd/diff-in-chunk-0", "fd/diff-in-chunk-1", "fd/diff-in-chunk-2", "fd/diff-at-chunk-boundary", "fd/empty-key", "fd/single-key-list",
 			"cp/s>0", "cp/m=1", "cp/m>=64", "cp/key-shorter-than-prefix", "cp/all-subranges", "cp/keys>=66", "cp/range-ends-at-multiple-of-64-keys", "cp/range>2^17-dense-keys", "cp/key-buffer-refilled-after-New", "fd/first-diff-bit>=2048", "fd/first-diff-bit>=32768", "fd/keys>2^18"},
 		Families: func(c *mon.Config) []mon.Family {
 			return []mon.Family{
@@ -70,6 +70,12 @@ func c16CheckList(w *mon.W, keys []string) bool {
 	w.Op, w.Obj = "FirstDiffBits", keys
 	in := append([]string(nil), keys...)
 	keys, guardK := argStrs(w, keys)
+	if roPickStrs(in) { // the key list - headers and bytes - in memory that cannot be written (ro.go)
+		if v, rel, ok := roOneStrs(w, in); ok {
+			keys = v
+			defer rel()
+		}
+	}
 	got := sigbits.FirstDiffBits(keys)
 	if !guardK() {
 		w.Fail("FirstDiffBits/wrote-outside-len-of-argument", mon.D{"nkeys": len(in)})
@@ -229,6 +235,12 @@ func c16CountWith(w *mon.W, idx int, medium bool) {
 	}
 	w.Op, w.Obj = "sigbits.New", keys
 	qKeys, gKeys := argStrs(w, keys) // the reused, poisoned argument buffer of this worker
+	if idx&1 == 0 && roPickStrs(keys) { // or a list in memory that cannot be written (ro.go)
+		if v, rel, ok := roOneStrs(w, keys); ok {
+			qKeys = v
+			defer rel()
+		}
+	}
 	sb := sigbits.New(qKeys)
 	if !gKeys() {
 		w.Fail("New/wrote-outside-len-of-argument", mon.D{"nkeys": len(keys)})
